@@ -267,6 +267,40 @@ def check_large(case):
     return tags
 
 
+def check_sparse_product(case):
+    """Three grouping columns with ~50 observed levels each on a few dozen rows: by_group still lists the whole Cartesian
+    product of the observed levels (more than 2**17 combinations), NaN everywhere except at the observed combinations."""
+    import fairlearn.metrics as fm
+    from fairlearn.metrics import MetricFrame
+
+    rs = np.random.RandomState(case["seed"])
+    n, L = case["n"], case["levels"]
+    feats = [np.r_[np.arange(L), rs.randint(0, L, size=n - L)] for _ in range(3)]
+    for f in feats:
+        rs.shuffle(f)
+    yp = rs.randint(0, 2, size=n)
+    sf = pd.DataFrame({"f%d" % j: f for j, f in enumerate(feats)})
+    mf = MetricFrame(metrics={"count": fm.count, "sel": fm.selection_rate}, y_true=yp, y_pred=yp, sensitive_features=sf)
+    bg = mf.by_group
+    M.need(len(bg) == L ** 3, f"by_group has {len(bg)} rows, the Cartesian product of the observed levels has {L ** 3}")
+    filled = bg.dropna(how="all")
+    combos = {}
+    for i in range(n):
+        combos.setdefault(tuple(int(f[i]) for f in feats), []).append(i)
+    M.need(len(filled) == len(combos), f"{len(filled)} non-NaN rows for {len(combos)} observed combinations")
+    for key, rows in combos.items():
+        got = bg.loc[key]
+        M.need(float(got["count"]) == len(rows) and abs(float(got["sel"]) - float(yp[rows].mean())) < 1e-12,
+               f"by_group[{key}] = {got.to_dict()} for the {len(rows)} rows of that combination")
+    return ["nt", "cells>2**17"] if L ** 3 > 2 ** 17 else ["nt"]
+
+
+@st.composite
+def _sparse_product_cases(draw):
+    L = draw(st.sampled_from([51, 52, 55, 60]))
+    return {"levels": L, "n": draw(st.integers(L + 1, L + 40)), "seed": draw(st.integers(0, 2**31 - 1))}
+
+
 @st.composite
 def _large_strategy(draw):
     k = draw(st.integers(1, 3))
@@ -300,6 +334,7 @@ SUBS = [
     Sub("cells", check, strategy=_strategy, quick=1500, thorough=40000, shards=16,
         floors={"nt": 0.3, "groups>=2": 0.349, "single_member_cell": 0.2, "empty_cell": 0.099, "control": 0.15,
                 "sample_params": 0.214, "dict>=2": 0.12, "n1": 0.003}),
+    Sub("sparse_product", check_sparse_product, strategy=_sparse_product_cases, quick=4, thorough=24, shards=4, shrink_quick=False),
     Sub("cells_large", check_large, strategy=_large_strategy, quick=32, thorough=400, shards=16, shrink_quick=False,
         floors={"cells>=30": 0.25, "control": 0.12}),
 ]
